@@ -613,6 +613,25 @@ _BASE_MODELS = [
             {"name": "c-2", "default": False, "schedule": [{"name": "only", "operation": _op("sleep", "sleep", "string")}, {"name": "only-2", "operation": _op("sleep", "sleep", "string")}]},
         ],
     },
+    # a track without corpora (search-only / fed by a custom parameter source), written with a bare schedule
+    {
+        "description": "queries only",
+        "store": "indices",
+        "indices": [{"name": "existing-index"}],
+        "data-streams": [],
+        "templates": [],
+        "composable-templates": [],
+        "component-templates": [],
+        "corpora": [],
+        "form": "schedule",
+        "challenges": [
+            {"name": "c", "schedule": [
+                {"name": "warm", "operation": _op("match-all.2", "search", "ref", body={"query": {"match_all": {}}}), "clients": 2, "warmup-iterations": 1, "iterations": 2},
+                {"clients": 3, "tasks": [{"name": "p1", "operation": _op("term.2", "search", body={"query": {"term": {"f": "v"}}}), "clients": 2, "warmup-time-period": 2, "time-period": 4},
+                                         {"name": "p2", "operation": _op("sleep", "sleep", "string")}]},
+            ]},
+        ],
+    },
 ]
 
 
@@ -626,9 +645,12 @@ def enumerate_cases(tier):
     for mi, model in enumerate(_BASE_MODELS):
         for li, layout in enumerate(layouts):
             yield {"track": model, "params": [{"site": 3 + 11 * li, "supplied": bool(li)}, {"site": 40, "supplied": False}], "layout": layout,
-                   "selected": model["challenges"][li]["name"] if li else None, "violation": None}
+                   "selected": model["challenges"][li]["name"] if li and model["form"] != "schedule" else None, "violation": None}
         for kind in KINDS:
-            if NEEDS[kind].get("store") == "indices" and model["store"] != "indices":
+            need = NEEDS[kind]
+            if need.get("store") == "indices" and model["store"] != "indices":
+                continue
+            if need.get("corpora", 0) > len(model["corpora"]) or need.get("challenges", 1) > len(model["challenges"]) or need.get("form", model["form"]) != model["form"]:
                 continue
             for gi, (a, b) in enumerate(grid):
                 yield {"track": model, "params": [{"site": 5 * gi + mi, "supplied": bool(gi % 2)}] if gi else [], "layout": layouts[(gi + mi) % 2],
@@ -652,6 +674,6 @@ PROBES = {
 
 def evidence_extra():
     return {
-        "exhaustive_subdomain": f"{len(KINDS)} violation kinds x 2 hand-written base tracks x 3 (thorough 16) positions x 2 layouts, plus the base tracks "
+        "exhaustive_subdomain": f"{len(KINDS)} violation kinds x 3 hand-written base tracks (one of them without corpora, written with a bare schedule) x 3 (thorough 16) positions x 2 layouts, plus the base tracks "
         "themselves under 2 layouts (count: exhaustive_subdomain_cases)"
     }
